@@ -33,7 +33,7 @@ EXPLANATION = (
     "limit; of shrink_types that collections consisting only of TypedDicts (also a single one decoded from the store) go "
     "through shrink_typed_dict_types with the limit; of shrink_typed_dict_types (exhaustive over <=3 TypedDicts x <=2 keys x "
     "limit 0..3) that the merged TypedDict never has more keys than the limit and otherwise becomes Dict[str, ...]; the "
-    "generic rewriter and the stub generator emit exactly the input's fields. Not decided: counts on concrete nested values."
+    "generic rewriter and the stub generator emit exactly the input's fields. A TypedDict may be created only where the limit is in scope (call-graph rule). Added: the four inference functions are also interpreted TOGETHER on a grammar of ~90 small concrete values (atoms, class objects, list/tuple/set/dict/defaultdict of depth <= 2, lists of dicts, empty containers, non-string keys) x limits and on ~700 merged pairs, and the result is judged by an oracle written from the property; two-call histories sharing module state (a memo with an unsound key is reported); compat.types_equal decided by interpretation. Not decided: counts on values outside the bounded grammar."
 )
 
 PARAM = "max_typed_dict_size"
